@@ -110,7 +110,8 @@ type lookupReq struct {
 	KeyFor  string `json:"key_for"` // which fixture key the returned token.Key holds (by public key)
 	X509    string `json:"x509"`    // Config().X509Certificate
 	InitErr string `json:"init_err,omitempty"`
-	Leaf    int    `json:"leaf"` // leaf of signinit.InitKey through the same cache (-1 none/error)
+	Again   string `json:"again"` // config.GetKey(returned key's own name): "same" section again, "other" section, or the error text
+	Leaf    int    `json:"leaf"`  // leaf of signinit.InitKey through the same cache (-1 none/error)
 	LeafFor string `json:"leaf_for"`
 }
 
@@ -506,6 +507,14 @@ func runLib(c *core.Ctx) error {
 					if samePub(k.Public(), fx.keys[kn].Pub) {
 						rq.KeyFor = kn
 					}
+				}
+				// callers (server views, worker token) look the returned key up again by its own name
+				if again, aerr := cfg.GetKey(k.Config().Name()); aerr != nil {
+					rq.Again = aerr.Error()
+				} else if again == k.Config() {
+					rq.Again = "same"
+				} else {
+					rq.Again = "other"
 				}
 				for tag, ns := range certTag {
 					if k.Config().X509Certificate == fx.certFile(ns, "pem") {
